@@ -19,6 +19,8 @@ RULE = ('keys: stage(8) method_name(2) span(3) snapshot(3) log_msg(2) condition(
         'tracepoints over {A@L1, B@L1, C@L2, uninterpretable}; non-trivial = the combination asks for at least one effect and at '
         'least one hit is rejected or at least one effect kind is absent'
         ' ; capture stages act at completion with the captured result; method tracepoints without a name act on the function containing their line; response lists over {A, B, C, unknown stage U, unknown metric type V, nameless method N} compare where each snapshot was taken')
+RULE_ADDED = 'round 5: list kinds X, Y (method names that read like a line / like the id of a nameless method tracepoint); tracepoints registered with a line that is no whole number (5 values x 3 forms) next to valid ones'
+RULE = RULE + ' ; ' + RULE_ADDED
 ASSUMPTIONS = ['unknown span values, unknown frame_type and stack_type semantics are don\'t-cares (outside the statement)',
                'a method tracepoint without method_name (span=method or a method stage on a line) acts on entry of the function that contains its line',
                'capture stages: log, metrics and span act at the hit, the snapshot is delivered when the method returns / at the next line of the function, a method capture with the captured `return`']
